@@ -50,6 +50,8 @@ for mid in ids:
         sig = re.search(r"signature=(.*)", r.stdout)
         entry["checks"][chk] = {"exit": r.returncode, "signature": sig.group(1).strip() if sig else None}
         print(mid, chk, "exit", r.returncode, sig.group(1)[:100] if sig else "", flush=True)
+        if r.returncode not in (0, 1):
+            print((r.stdout + r.stderr)[-1500:], flush=True)
     entry["caught_by"] = [c for c, x in entry["checks"].items() if x["exit"] == 1]
     results = json.loads(resf.read_text()) if resf.exists() else results   # merge with concurrent runs
     results[mid] = entry
